@@ -52,6 +52,7 @@ class Ctx:
         self._seen_keys = set()
         self.notes = []
         self._distinct = set()
+        self.flush_hooks = []  # called when the wall-clock guard stops the check: report what is collected
 
     # -- bookkeeping -------------------------------------------------------
     def log(self, *a):
